@@ -13,7 +13,9 @@ from vlib.runner import hyp
 
 PROPERTY = 'C02'
 LEVEL = 'exploration'
-RULE = ('Type specs: Boolean, (Unsigned)Byte/Short/Long, Integer, Float, '
+RULE = ('Strings also with BOM, NUL, U+FFFD, separators, whitespace and '
+        'quotes in first, last and middle position. '
+'Type specs: Boolean, (Unsigned)Byte/Short/Long, Integer, Float, '
         'Double, String, UUID, Angle, VarInt/Short-prefixed byte arrays, '
         'TrailingByteArray, FixedPoint(carrier, n), FixedPointInteger, '
         'PrefixedArray(length type, element spec) nested to depth 3; values '
